@@ -1525,6 +1525,12 @@ def c15(tier):
         if i % 3 == 1:      # a sink that accepts short writes: the encrypted body must still arrive completely
             sc["short_w_max"] = g.r.choice([1, 7, 64, 1000, 4095, 5000])
         ws.append(sc)
+    # volume: the cipher's key schedule is 32-bit modular arithmetic driven by every byte; an unchecked '+' in it overflows for about one
+    # byte in 3.4e7 - many megabytes of key updates (encrypting, then decrypting) make such states certain to be visited
+    vol = (96 << 20) if tier == "quick" else (768 << 20)
+    ws.append({"sc": "enc-volume", "ops": [{"op": "New"}, {"op": "StartFile", "name": "volume.bin", "method": 0, "enc": "volume-pw"},
+                                            {"op": "Write", "data": {"len": vol, "seed": sd + 15, "kind": "rand"}, "split": 1 << 20},
+                                            {"op": "StartFile", "name": "after", "method": 8, "enc": "volume-pw"}, {"op": "Write", "data": "after the volume"}, {"op": "Finish"}]})
     run_writer_programs(rep, wd, ws, "crate-encrypts", referees=True)
     # (c) reading under schedules with the right / a wrong / no password
     es = []
@@ -2207,6 +2213,22 @@ def c11(tier):
                {"op": "AddDir", "name": "newdir", "method": 0}, {"op": "Finish"}]),
              ("append-foreign", [{"op": "Load", "hex": fb.hex()}], {"op": "NewAppend", "arch": 0},
               [{"op": "StartFile", "name": "appended", "method": 0}, {"op": "Write", "data": "x"}, {"op": "Finish"}])]
+    # the FIRST entry of an archive through each entry-creating call (an emptied entry list is a state of its own: whatever a failed
+    # call rolls back, later calls - the next entry, finish, drop - must still return)
+    second = [{"op": "StartFile", "name": "second", "method": 8}, {"op": "Write", "data": "second entry"}]
+    firsts = {"aligned": [{"op": "StartFileAligned", "name": "first", "method": 0, "align": 64}, {"op": "Write", "data": "aligned first"}],
+              "aligned-large": [{"op": "StartFileAligned", "name": "first", "method": 8, "align": 4096, "large": True}, {"op": "Write", "data": "aligned first"}],
+              "extra": [{"op": "StartFileExtra", "name": "first", "method": 8}, {"op": "WriteExtra", "recs": [{"id": 0xbeef, "dsz": 10}]}, {"op": "EndExtra"},
+                        {"op": "Write", "data": "first with extra data"}],
+              "extra-central": [{"op": "StartFileExtra", "name": "first", "method": 0}, {"op": "WriteExtra", "recs": [{"id": 0xbeef, "dsz": 4}]},
+                                {"op": "EndLocalStartCentral"}, {"op": "WriteExtra", "recs": [{"id": 0xcafe, "dsz": 2}]}, {"op": "EndExtra"}, {"op": "Write", "data": "x"}],
+              "extra-open": [{"op": "StartFileExtra", "name": "first", "method": 0}, {"op": "WriteExtra", "recs": [{"id": 0xbeef, "dsz": 4}]}],
+              "dir": [{"op": "AddDir", "name": "first", "method": 0}], "symlink": [{"op": "AddSymlink", "name": "first", "target": "t", "method": 0}],
+              "enc": [{"op": "StartFile", "name": "first", "method": 0, "enc": "pw"}, {"op": "Write", "data": "encrypted first"}]}
+    for nm_, ops_ in firsts.items():
+        for endop in (("Finish",) if tier == "quick" else ("Finish", "Drop")):
+            progs.append(("first-%s-%s" % (nm_, endop.lower()), [], {"op": "New"}, ops_ + second + [{"op": endop}]))
+    progs.append(("first-rawcopy", [{"op": "Load", "hex": fb.hex()}], {"op": "New"}, [{"op": "RawCopy", "arch": 0, "idx": 1, "rename": None}] + second + [{"op": "Finish"}]))
     nrand = 6 if tier == "quick" else 40
     for i in range(nrand):
         s = g.valid_archive("x", nmax=5, enc_ok=True, end=rnd.choice(["Finish", "Drop"]))
